@@ -358,6 +358,29 @@ def decide(prop, r, tier, seed, meta):
     ev = evidence(prop, r, tier, seed, meta, obs, panic, calls, new_fail, known_hit, fn_keys, n_obl, n_failed + n_known_clauses)
     return code, out, ev
 
+def outside_panic_sites(em):
+    """C16 scope statement, recomputed on every run: non-test functions of /repo/src that are NOT under contract and contain
+    a lexical panic site (unwrap/expect/panic!/assert!/unreachable!).  These are outside what the check decides."""
+    import re as _re, glob
+    from .extract import Repo
+    root = os.path.join(P.REPO, "src")
+    under = {(f["file"], f["name"]) for f in em.functions} | {(f["file"], f.get("rename_to")) for f in em.functions}
+    repo = Repo(root)
+    out = []
+    for path in sorted(glob.glob(os.path.join(root, "**", "*.rs"), recursive=True)):
+        rel = os.path.relpath(path, root)
+        try:
+            sf = repo.file(rel)
+        except Exception:
+            continue
+        for it in sf.items:
+            if it.kind != "fn" or it.name.startswith("test_") or (rel, it.name) in under:
+                continue
+            n = len(_re.findall(r"\.unwrap\(\)|\.expect\(|panic!|unreachable!|assert!\(|assert_eq!\(|unimplemented!|todo!", it.text))
+            if n:
+                out.append("%s: %s%s (%d site%s)" % (rel, (it.header + "::") if it.header and it.header != "-" else "", it.name, n, "" if n == 1 else "s"))
+    return out
+
 def evidence(prop, r, tier, seed, meta, obs, panic, calls, new_fail, known_hit, fn_keys, n_obl, n_notdis):
     em = r.em
     fns = []
@@ -402,6 +425,7 @@ def evidence(prop, r, tier, seed, meta, obs, panic, calls, new_fail, known_hit, 
             "solver_ms": smt_total, "verus_wall_s": round(r.res["wall"], 2), "vacuity_wall_s": round(r.vac_wall, 2),
             "known_finding_clauses": [k.get("id") for _, k in known_hit],
             "not_decided": meta.get("not_decided", []),
+            "panic_sites_outside_contracts": (outside_panic_sites(em) if prop == "C16" else None),
             "samples": samples,
             "explanation": meta.get("explanation", ""),
         },
